@@ -45,6 +45,14 @@ def run(ctx) -> None:
     # (quick) or three (thorough) requests per gap with the exact scheduler of execute_commands (every driven command steps in every tick)
     ex = Explorers(Explorer(ctx, faults=True, track=("outs", "hw", "err", "cap")),
                    Explorer(ctx, faults=True, track=("outs", "hw", "err", "cap"), max_pending=3 if ctx.tier == "thorough" else 2, exact=True))
+    def leaves_pause_unsafe(s, t, lab):
+        a, z = sd(s), sd(t)
+        # (hardware that goes live while the pause flag *stays* set is the known finding R08d: commands keep executing while paused)
+        return bool(a["paused"]) and a["hw"] in ("safe", "psafe") and z["hw"] == "live" and bool(z["stopping"]) and not z["paused"] \
+            and not a.get("err") and "Unpause" not in (a["pend"], a.get("pend2"), a.get("pend3"))      # (a user Unpause in the gap is the user's own doing)
+    for e_ in ex.exs:
+        if e_.exact:        # the coarse scheduler lets an in-flight Stop/Restart stall for a tick, which the real command loop cannot
+            e_.edge_watch = leaves_pause_unsafe
     ex.explore()
     ctx.extra["states"] = len(ex.reach)
     ctx.extra["transitions"] = ex.edges
@@ -174,8 +182,7 @@ def run(ctx) -> None:
     for kind, s in seen.items():
         hist = " > ".join(ex.trace(s))
         rule = explained.get(kind)
-        if rule in structural or (kind == "paused/error pause" and ("R08c" in structural or "R08d" in structural)) \
-                or (kind == "no run" and "R08a" in structural):
+        if rule in structural or (kind == "paused/error pause" and ("R08c" in structural or "R08d" in structural)):
             for fd in ctx.findings:
                 if fd.rule == rule and "model-checked" not in fd.message:
                     fd.message += f" | model-checked history: {hist}"
@@ -184,6 +191,19 @@ def run(ctx) -> None:
                  f"hardware ghost is {sd(s)['hw']} | history: {hist} | state: {show(s)}",
                  function="openpectus.engine (run-state machine)")
 
+    # ---- R08g
+    ctx.rule("R08g", "ending a run from a pause does not put live values back on the hardware")
+    inst = "no tick takes the hardware from safe (paused) to live while a Stop/Restart is in progress"
+    hits = [(e_, w) for e_ in ex.exs for w in e_.watched]
+    if not hits:
+        ctx.ok("R08g", inst, {"rule": "R08g", "transitions_examined": ex.edges})
+    else:
+        e_, (s_, t_, lab_) = hits[0]
+        hist = " > ".join(e_.trace(s_)) + f" > {lab_}[paused={sd(t_)['paused']}, stopping={sd(t_)['stopping']}, hw={sd(t_)['hw']}]"
+        ctx.fail("R08g", tick, tick.node, inst, "the user ends a paused run with Stop (or Restart) and never unpauses, yet the pre-pause values are "
+                 "written to the hardware for a tick: Stop's first segment cancels the waiting timed Pause, whose cancel() runs Unpause and "
+                 f"restores the outputs, and the safe state is only applied in Stop's closing segment | history: {hist} | state: {show(t_)}",
+                 function="openpectus.engine (run-state machine)")
     _write_image_complete(ctx)
 
 
